@@ -36,6 +36,8 @@ struct Case {
     reuse_after: Option<Vec<u8>>,
     /// window limit configured on the decoder before the frame (None: the default of 128 MiB)
     limit: Option<usize>,
+    /// the limit is lowered only after the decoder has decoded its first frame (`reuse_after`) with the default limit
+    limit_late: bool,
 }
 
 /// hand-built frame: window descriptor byte, optional Frame_Content_Size claim (two byte field, not single segment), blocks
@@ -147,7 +149,7 @@ fn build_cases(args: &Args) -> Vec<Case> {
                 3 => *r.pick(&[1usize, 100, 4096, 1 << 20]),
                 _ => 0,
             };
-            cases.push(Case { name: name.clone(), frame: frame.clone(), oversized_block: oversized, valid, driver: d, param, reuse_after: None, limit: None });
+            cases.push(Case { name: name.clone(), frame: frame.clone(), oversized_block: oversized, valid, driver: d, param, reuse_after: None, limit: None, limit_late: false });
         }
         // the same frame on a decoder that has seen a frame with a much larger window before
         let window = zspec::frame::parse_frame_header(&frame).map(|h| h.window_size).unwrap_or(u64::MAX);
@@ -161,12 +163,13 @@ fn build_cases(args: &Args) -> Vec<Case> {
                 3 => 4096,
                 _ => 0,
             };
-            cases.push(Case { name: format!("{name} [on a decoder reused after a frame with a 4 MiB window]"), frame: frame.clone(), oversized_block: oversized, valid, driver: d, param, reuse_after: Some(big_first.clone()), limit: None });
+            cases.push(Case { name: format!("{name} [on a decoder reused after a frame with a 4 MiB window]"), frame: frame.clone(), oversized_block: oversized, valid, driver: d, param, reuse_after: Some(big_first.clone()), limit: None, limit_late: false });
         }
     }
     // the configured window limit: frames declaring a window far above it - whatever content size they claim - and then
     // delivering much more than the limit (96 RLE blocks = 12 MiB in 390 bytes); and legal frames at the limit
     let rle_blocks: Vec<(u8, u32, Vec<u8>)> = (0..96).map(|_| (1u8, BLOCK as u32, vec![0x33u8])).collect();
+    let small_first = raw_frame(0x00, None, &[(0, 5, b"first".to_vec())]);
     for (wd, wname) in [(0x68u8, "8 MiB"), (0x80, "64 MiB"), (0x98, "512 MiB")] {
         for claim in [None, Some(0u16), Some(1000), Some(65535)] {
             let frame = raw_frame(wd, claim, &rle_blocks);
@@ -177,7 +180,11 @@ fn build_cases(args: &Args) -> Vec<Case> {
                         Some(c) => format!("claiming {} bytes of content", c as usize + 256),
                         None => "without a content size".to_string(),
                     };
-                    cases.push(Case { name: format!("window above the limit: window {wname} {what}, 12 MiB of RLE blocks, limit {} MiB", limit >> 20), frame: frame.clone(), oversized_block: false, valid: false, driver: d, param, reuse_after: None, limit: Some(limit) });
+                    cases.push(Case { name: format!("window above the limit: window {wname} {what}, 12 MiB of RLE blocks, limit {} MiB", limit >> 20), frame: frame.clone(), oversized_block: false, valid: false, driver: d, param, reuse_after: None, limit: Some(limit), limit_late: false });
+                    if claim.is_none() || claim == Some(1000) {
+                        // the same on a decoder whose limit is lowered after it has decoded a first (small) frame
+                        cases.push(Case { name: format!("window above the limit: window {wname} {what}, 12 MiB of RLE blocks, limit lowered to {} MiB after a first frame", limit >> 20), frame: frame.clone(), oversized_block: false, valid: false, driver: d, param, reuse_after: Some(small_first.clone()), limit: Some(limit), limit_late: true });
+                    }
                 }
             }
         }
@@ -187,7 +194,7 @@ fn build_cases(args: &Args) -> Vec<Case> {
         let frame = raw_frame(if k == 0 { 0x50 } else { 0x58 }, None, &rle_blocks[..64]);
         for d in 0..5 {
             let param = [0usize, 1000, 2, 4096, 0][d];
-            cases.push(Case { name: format!("window at the limit: window = limit = {} MiB, 8 MiB of RLE blocks", limit >> 20), frame: frame.clone(), oversized_block: false, valid: true, driver: d, param, reuse_after: None, limit: Some(limit) });
+            cases.push(Case { name: format!("window at the limit: window = limit = {} MiB, 8 MiB of RLE blocks", limit >> 20), frame: frame.clone(), oversized_block: false, valid: true, driver: d, param, reuse_after: None, limit: Some(limit), limit_late: false });
         }
     }
     cases
@@ -221,7 +228,7 @@ fn run_case(c: &Case) -> Value {
     let reused = c.reuse_after.is_some();
     let res = catch(|| -> Result<(), String> {
         let mut d = FrameDecoder::new();
-        if let Some(l) = c.limit {
+        if let (Some(l), false) = (c.limit, c.limit_late) {
             d.set_max_window_size(l as u64);
         }
         if let Some(first) = &c.reuse_after {
@@ -229,6 +236,9 @@ fn run_case(c: &Case) -> Value {
             d.reset(&mut src).map_err(|e| format!("HARNESS first frame: {e}"))?;
             d.decode_blocks(&mut src, BlockDecodingStrategy::All).map_err(|e| format!("HARNESS first frame: {e}"))?;
             let _ = d.collect();
+        }
+        if let (Some(l), true) = (c.limit, c.limit_late) {
+            d.set_max_window_size(l as u64);
         }
         match c.driver {
             0..=2 => {
